@@ -116,9 +116,44 @@ def _s6(day):
     return zd, day + dt.timedelta(days=1), ["db", "reindex"]
 
 
+def _s7(day):
+    """A page renamed, a note cut from one page and pasted (with its ZID) into an earlier-sorted
+    page whose header gives an inherited property another value, and an edit next to it."""
+    files = {
+        "a.zo": "# A\n# st::active\n\n- 240101#A1 stays in a v0\n",
+        "m.zo": "# M\n# st::backlog\n\n- 240102#M1 will move to a\n- 240102#M2 stays in m v0\n",
+        "old.zo": "# OLD\n\n- 240103#X1 on the page that gets renamed [[a]]\n",
+    }
+    zd = Z.make_zdir(files, "c13b")
+    r = Z.db_create(zd, day)
+    if not Z.cli_ok(r):
+        raise H.HarnessError("S7 setup failed " + r.err[-300:])
+    (zd / "a.zo").write_text("# A\n# st::active\n\n- 240101#A1 stays in a v1\n- 240102#M1 will move to a\n")
+    (zd / "m.zo").write_text("# M\n# st::backlog\n\n- 240102#M2 stays in m v1\n")
+    (zd / "old.zo").rename(zd / "new.zo")
+    return zd, day + dt.timedelta(days=1), ["db", "reindex"]
+
+
+def _s8(day):
+    """A whitelisted broken page has been repaired (it must leave the whitelist and be indexed
+    in full) while another page gained a ZID-less note."""
+    files = {
+        "good.zo": "# G\n\n- 240101#G1 good note\n",
+        "w.zo": "# W\n\n- 240102#W1 ok note\n-- broken line\n- 240102#W2 after the broken line\n",
+    }
+    zd = Z.make_zdir(files, "c13b")
+    r = Z.db_create(zd, day, force=True)
+    if not Z.cli_ok(r):
+        raise H.HarnessError("S8 setup failed " + r.err[-300:])
+    (zd / "w.zo").write_text("# W\n\n- 240102#W1 ok note\n- 240102#W2 after the broken line\n- brand new on the repaired page\n")
+    (zd / "good.zo").write_text("# G\n\n- 240101#G1 good note\no new todo on the good page\n")
+    return zd, day, ["db", "reindex"]
+
+
 SCENARIOS = {"S1-create-new-notes": _s1, "S2-reindex-stamp-new-note-new-page": _s2,
              "S3-reindex-shared-tag": _s3, "S4-create-f-whitelist": _s4,
-             "S5-reindex-without-write-back": _s5, "S6-reindex-page-with-properties-and-single-use-tags": _s6}
+             "S5-reindex-without-write-back": _s5, "S6-reindex-page-with-properties-and-single-use-tags": _s6,
+             "S7-reindex-renamed-page-and-moved-note": _s7, "S8-reindex-repaired-whitelisted-page": _s8}
 
 
 # ---------------------------------------------------------------------------
@@ -385,12 +420,13 @@ def run(ctx: F.Ctx):
         _SC.clear()
     meta = {
         "rule": (
-            "6 scenarios (db create with three ZID-less notes on two pages; db reindex a day later "
+            "8 scenarios (db create with three ZID-less notes on two pages; db reindex a day later "
             "with an edited note, a new note, a new page, a new page in a sub-directory and an untouched page; db reindex with two "
             "changed pages sharing a tag whose other holder dropped it; db create -f with a broken "
             "page; db reindex after changes that need no write-back: a new page whose notes carry "
             "ZIDs, a deleted page, a header-only edit; db reindex of a page whose edited first and last notes surround notes "
-            "with properties, single-use tags and a link). Effects intercepted in program order: Path.write_text, Path.open(w), touch, "
+            "with properties, single-use tags and a link; db reindex after a page was renamed and a note was cut "
+            "and pasted with its ZID into an earlier-sorted page; db reindex after a whitelisted broken page was repaired). Effects intercepted in program order: Path.write_text, Path.open(w), touch, "
             "unlink, rename, Session.commit. For every k in 1..N the command is killed (os._exit) "
             "immediately before effect k, then re-run to completion and judged: exits cleanly, raw "
             "index == recompiled files, every note has a ZID, no ZID on two notes, the multiset of "
